@@ -138,7 +138,8 @@ def _env(ctx):
     lines = []
     for pname, ptxt, seq, w in specs:
         lines.append(build_line(ptxt, seq, w) if pname != "adjacent-zids" else ptxt)
-    header = "# CUR page\n\n"
+    # U+2028 / form feed / vertical tab are not line breaks of a page
+    header = "# CUR page \u2028 with \x0c odd \x0b separators\n\n"
     # the page the lines are on also holds notes whose three-character ZIDs BEGIN with the
     # two-character ZIDs the lines refer to (those are owned by other pages)
     decoys = "\n- 240105#R2A a note of this page\n- 240101#P1A another one\no P1 240502 240105#R2B third\n"
